@@ -328,9 +328,15 @@ def _add_zid_to_line(zid: str, line: str) -> str:
     while words and words[0] == "":
         words.pop(0)
 
+    # A YYMMDD modify date MUST stay in front of the ZID (otherwise it would no
+    # longer be recognized as the note's modify date).
+    modify_date = ""
+    if words and zdt.is_short_date_spec(words[0]):
+        modify_date = f"{words.pop(0)} "
+
     # Remove a YYYY-MM-DD create date if one existed prior to adding a ZID to
     # the note.
-    if len(words[0]) == 10:
+    if not modify_date and len(words[0]) == 10:
         dash_idices = (4, 7)
         for i, ch in enumerate(words[0][:10]):
             if i not in dash_idices and not ch.isdigit():
@@ -338,7 +344,7 @@ def _add_zid_to_line(zid: str, line: str) -> str:
         else:
             words.pop(0)
 
-    return f"{line_before_zid}{zid} {' '.join(words)}"
+    return f"{line_before_zid}{modify_date}{zid} {' '.join(words)}"
 
 
 def _hash_file(filepath: Path, chunk_size: int = 8192) -> str:
